@@ -153,7 +153,7 @@ static void one_attr_msg (StunAgent *ag, StunMessage *m, uint8_t *buf, size_t ca
   stun_agent_init (ag, STUN_ALL_KNOWN_ATTRIBUTES,
       compat == NICE_TURN_SOCKET_COMPATIBILITY_OC2007 ? STUN_COMPATIBILITY_OC2007 : STUN_COMPATIBILITY_RFC5389,
       compat == NICE_TURN_SOCKET_COMPATIBILITY_OC2007 ? (STUN_AGENT_USAGE_LONG_TERM_CREDENTIALS | STUN_AGENT_USAGE_NO_ALIGNED_ATTRIBUTES) : STUN_AGENT_USAGE_LONG_TERM_CREDENTIALS);
-  StunTransactionId id; memset (id, 0, sizeof id);
+  StunTransactionId id; memset (id, 0, sizeof id); id[0] = 0x21; id[1] = 0x12; id[2] = 0xa4; id[3] = 0x42;   /* has_cookie: exact attribute lengths */
   m->buffer = buf; m->buffer_len = cap; m->agent = ag; m->key = NULL; m->key_len = 0; m->long_term_valid = FALSE;
   stun_message_init (m, STUN_RESPONSE, STUN_ALLOCATE, id);
 }
